@@ -232,7 +232,24 @@ func c13Applier(c *core.Ctx, res *core.Result) {
 		}
 		return to
 	}
-	feat := map[string]string{"kind": "applier", "split_inside_transaction": fmt.Sprint(splitInsideTx)}
+	// in every 8th case the replica's store fails once or twice (a transient apply error, also in the middle of a
+	// transaction): what was applied in front of the failure stays applied, nothing may be skipped afterwards
+	applyFaults := map[int]bool{}
+	if c.Idx%8 == 5 {
+		for i, n := 0, r.Range(1, 2); i < n; i++ {
+			applyFaults[r.Range(1, 3*len(h))] = true
+		}
+	}
+	applyCalls := 0
+	applyFn := func(e *wal.Entry) error {
+		applyCalls++
+		if applyFaults[applyCalls] {
+			res.Count("apply_errors_injected", 1)
+			return fmt.Errorf("transient store error (injected)")
+		}
+		return al.Apply(e)
+	}
+	feat := map[string]string{"kind": "applier", "split_inside_transaction": fmt.Sprint(splitInsideTx), "apply_faults": fmt.Sprint(len(applyFaults) > 0)}
 	var holed []rhEntry // when set, deliver sends this instead of h[from:to] (same first and last entry, a unit missing inside)
 	deliver := func(kind string, from, to int) bool {
 		if from >= to {
@@ -244,7 +261,7 @@ func c13Applier(c *core.Ctx, res *core.Result) {
 			holed = nil
 		}
 		before, _, _ := al.status()
-		maxApplied, gap, err := ap.ApplyEntries(msg, al.Apply)
+		maxApplied, gap, err := ap.ApplyEntries(msg, applyFn)
 		trace = append(trace, fmt.Sprintf("%s entries [%d,%d) seq %d..%d -> applied up to %d gap=%v err=%v", kind, from, to, h[from].e.SequenceNumber, h[to-1].e.SequenceNumber, maxApplied, gap, err != nil))
 		res.Count("messages", 1)
 		pos, bad, maxSeq := al.status()
